@@ -133,10 +133,10 @@ func eventPipeline(ver string, js []byte, others [][]byte) {
 	// HandleSendJoin counter-sign received events), then every accessor on the event it returns
 	signed := e.Sign("me", "ed25519:1", fuzzKey)
 	touchAccessors(signed)
-	// redaction last (in place)
-	e.Redact()
-	touchAccessors(e)
-	_ = e.SetUnsignedField("a", 1)
+	// redaction last (in place), of the signed event
+	signed.Redact()
+	touchAccessors(signed)
+	_ = signed.SetUnsignedField("a", 1)
 }
 
 type fuzzStateResp struct{ state, auth gmsl.EventJSONs }
